@@ -12,12 +12,14 @@ pub fn prop() -> Prop {
     Prop {
         id: "C06",
         level: "exploration",
-        rule: "proptest tapes decoding to one of the four closed shapes (sizes 0..=24 biased small, so strokes are often wider than the shape; a quarter of the cases up to 60) x PrimitiveStyle (fill/stroke colour present or absent, width 0..=12, three alignments, solid). Oracle: a reference renderer built from the hit-test API (fill colour iff fill_area().contains, else stroke colour iff stroke_area().contains and width > 0, else untouched) compared with draw() on a native-fill target and with pixels() through draw_iter; geometric clause on the bounding boxes of the two areas (grown by the outside part, shrunk by the inside part, zero-sized when collapsed) and direct clauses 'inside stroke never paints outside the shape' / 'outside stroke never paints inside it'. Non-trivial: both a fill and a stroke pixel exist, or the fill area is collapsed in exactly one dimension while a stroke is drawn.",
+        rule: "proptest tapes decoding to one of the four closed shapes (sizes 0..=24 biased small, so strokes are often wider than the shape; a quarter of the cases up to 60) x PrimitiveStyle (fill/stroke colour present or absent, width 0..=12, three alignments, solid). Oracle: a reference renderer built from the hit-test API (fill colour iff fill_area().contains, else stroke colour iff stroke_area().contains and width > 0, else untouched) compared with draw() on a native-fill target and with pixels() through draw_iter; geometric clause on the bounding boxes of the two areas (grown by the outside part, shrunk by the inside part, zero-sized when collapsed) and direct clauses 'inside stroke never paints outside the shape' / 'outside stroke never paints inside it'. Sub-check small_shapes_grid: complete enumeration of circles d <= 100, rectangles <= 12x12 and equal-corner rounded rectangles <= 12x12 (radius <= 6) x stroke widths x three alignments x {fill + stroke, stroke only, fill only}. Sub-check ellipse_grid: complete enumeration of ellipses w,h <= 64 (thorough: <= 100) x every inside stroke width 1..=ceil(min(w,h)/2) with fill and stroke colour (a search for the start of the fill inside a stroke row can be wrong for isolated sizes only). Non-trivial: both a fill and a stroke pixel exist, or the fill area is collapsed in exactly one dimension while a stroke is drawn.",
         assumptions: vec![
             "contains() of the four shapes is the membership function (pinned separately by C05 and C18)",
             "the geometric clause is only asserted for non-degenerate shapes (both sides > 0), as stated",
         ],
         subs: vec![
+            Sub::enumerate("ellipse_grid", ellipse_grid),
+            Sub::enumerate("small_shapes_grid", small_shapes_grid),
             Sub::tape("rectangle", 40, 100_000, 5_000_000, |d, cx| run(d, cx, 0)),
             Sub::tape("circle", 40, 100_000, 5_000_000, |d, cx| run(d, cx, 1)),
             Sub::tape("ellipse", 40, 100_000, 5_000_000, |d, cx| run(d, cx, 2)),
@@ -27,6 +29,11 @@ pub fn prop() -> Prop {
     }
 }
 
+
+thread_local! {
+    /// Set by the areas check when the hit-test API itself shows areas that are not nested (F-26).
+    static NOT_NESTED: std::cell::Cell<bool> = const { std::cell::Cell::new(false) };
+}
 
 struct Outcome {
     fill_px: usize,
@@ -68,10 +75,36 @@ macro_rules! check_closed {
                 }
             }
         }
+        // F-26 (known finding): the areas of a rounded rectangle whose radii need confining are not nested
+        // (fill area not inside the shape / the stroke area, shape not inside the stroke area), because
+        // `offset` works on the unconfined radii. Points where the nesting fails, from the hit-test API alone:
+        let mut not_nested: std::collections::BTreeSet<(i32, i32)> = Default::default();
+        if kind == "rounded_rectangle" {
+            for q in win.points() {
+                let (f, sh, st) = (fa.contains(q), p.contains(q), sa.contains(q));
+                if (f && !sh) || (f && !st) || (sh && !st) {
+                    not_nested.insert((q.x, q.y));
+                }
+            }
+        }
+        NOT_NESTED.with(|c| c.set(!not_nested.is_empty()));
+        // a disagreement that is confined to such points is that finding; anything else is reported as usual
+        let differing = |got: &Map<C>| -> Vec<(i32, i32)> {
+            let mut v: Vec<(i32, i32)> = exp.iter().filter(|(k, c)| got.get(*k) != Some(*c)).map(|(k, _)| *k).collect();
+            v.extend(got.keys().filter(|k| !exp.contains_key(*k)).copied());
+            v
+        };
+        let known = |pts: &[(i32, i32)]| !pts.is_empty() && pts.iter().all(|k| not_nested.contains(k));
         if let Some(d) = diff_maps("expected(fill_area/stroke_area)", &exp, "draw()", &native.0.map) {
+            if known(&differing(&native.0.map)) {
+                return fail("rounded_rectangle:areas_not_nested", format!("fill_area() / the shape / stroke_area() are not nested at {} point(s), e.g. {:?}, and draw() differs from the areas only there: {}", not_nested.len(), not_nested.iter().next(), d));
+            }
             return fail(format!("{}:draw_vs_areas", kind), d);
         }
         if let Some(d) = diff_maps("expected(fill_area/stroke_area)", &exp, "pixels()", &it.0.map) {
+            if known(&differing(&it.0.map)) {
+                return fail("rounded_rectangle:areas_not_nested", format!("fill_area() / the shape / stroke_area() are not nested at {} point(s), e.g. {:?}, and pixels() differs from the areas only there: {}", not_nested.len(), not_nested.iter().next(), d));
+            }
             return fail(format!("{}:pixels_vs_areas", kind), d);
         }
         // geometric meaning for non-degenerate shapes
@@ -97,9 +130,12 @@ macro_rules! check_closed {
             for (&(x, y), &c) in native.0.map.iter() {
                 let q = Point::new(x, y);
                 if style.stroke_alignment == StrokeAlignment::Inside {
+                    if !p.contains(q) && not_nested.contains(&(x, y)) {
+                        return fail("rounded_rectangle:areas_not_nested", format!("inside-aligned style paints {:?}, which fill_area() contains although it is outside the shape", q));
+                    }
                     ensure!(p.contains(q), format!("{}:inside_stroke_outside_shape", kind), "inside-aligned style paints {:?} which is outside the shape", q);
                 }
-                if style.stroke_alignment == StrokeAlignment::Outside && Some(c) == style.stroke_color && style.stroke_width > 0 && Some(c) != style.fill_color {
+                if style.stroke_alignment == StrokeAlignment::Outside && Some(c) == style.stroke_color && style.stroke_width > 0 && Some(c) != style.fill_color && !not_nested.contains(&(x, y)) {
                     ensure!(!p.contains(q), format!("{}:outside_stroke_inside_shape", kind), "outside-aligned stroke paints {:?} which is inside the shape", q);
                 }
             }
@@ -154,6 +190,114 @@ fn run_c<C: Col>(d: &mut Dec, cx: &mut Cx, kind: u32) -> Res {
         Shape::RRect(p) => check_closed!("rounded_rectangle", *p, style)?,
         _ => unreachable!(),
     };
+    if out.fill_px + out.stroke_px <= 20_000 {
+        shape.pixels_protocol(&style, d)?;
+    }
+    cx.count("rrect_cases_with_areas_that_are_not_nested", u64::from(NOT_NESTED.with(|c| c.replace(false))));
     cx.nontrivial((out.fill_px > 0 && out.stroke_px > 0) || (out.collapsed_one && out.stroke_px > 0));
     Ok(())
+}
+
+
+fn ellipse_case(e: Ellipse, style: PrimitiveStyle<Rgb888>) -> Result<Outcome, Fail> {
+    type C = Rgb888;
+    check_closed!("ellipse", e, style)
+}
+
+/// Every ellipse up to 64x64 (100x100) with every inside stroke width that leaves or just closes the fill.
+fn ellipse_grid(ex: &Ex) {
+    let m: u64 = ex.tier.pick(64, 100);
+    ex.par(m * m, |i| {
+        let (w, h) = ((i % m) as u32 + 1, (i / m) as u32 + 1);
+        let e = Ellipse::new(Point::new(-3, 2), Size::new(w, h));
+        let (mut n, mut nt) = (0u64, 0u64);
+        for t in 1..=(w.min(h) + 1) / 2 {
+            let style = PrimitiveStyleBuilder::new().fill_color(Rgb888::nth(1)).stroke_color(Rgb888::nth(2)).stroke_width(t).stroke_alignment(StrokeAlignment::Inside).build();
+            n += 1;
+            match ellipse_case(e, style) {
+                Ok(o) => nt += u64::from(o.fill_px > 0 && o.stroke_px > 0),
+                Err(f) => ex.fail(i * 128 + t as u64, f.sig, f.detail, format!("{:?} inside stroke width {}", e, t)),
+            }
+        }
+        ex.add(n, nt);
+        if i % 997 == 5 {
+            ex.sample(|| format!("Ellipse {}x{}: inside stroke widths 1..={}", w, h, (w.min(h) + 1) / 2));
+        }
+    });
+}
+
+
+fn circle_case(p: Circle, style: PrimitiveStyle<Rgb888>) -> Result<Outcome, Fail> {
+    type C = Rgb888;
+    check_closed!("circle", p, style)
+}
+fn rect_case(p: Rectangle, style: PrimitiveStyle<Rgb888>) -> Result<Outcome, Fail> {
+    type C = Rgb888;
+    check_closed!("rectangle", p, style)
+}
+fn rrect_case(p: RoundedRectangle, style: PrimitiveStyle<Rgb888>) -> Result<Outcome, Fail> {
+    type C = Rgb888;
+    check_closed!("rounded_rectangle", p, style)
+}
+
+/// Small closed shapes x stroke widths x alignments x colour presence, completely.
+fn small_shapes_grid(ex: &Ex) {
+    let styles = |t: u32| -> Vec<PrimitiveStyle<Rgb888>> {
+        let mut v = vec![];
+        for align in [StrokeAlignment::Inside, StrokeAlignment::Center, StrokeAlignment::Outside] {
+            for colours in 0..3 {
+                let mut b = PrimitiveStyleBuilder::new().stroke_width(t).stroke_alignment(align);
+                if colours != 1 {
+                    b = b.fill_color(Rgb888::nth(1));
+                }
+                if colours != 2 {
+                    b = b.stroke_color(Rgb888::nth(2));
+                }
+                v.push(b.build());
+            }
+        }
+        v
+    };
+    // items: 101 circles, 13*13 rectangles, 12*12*7 rounded rectangles
+    let (nc, nr, nrr) = (101u64, 169u64, 12 * 12 * 7u64);
+    ex.par(nc + nr + nrr, |i| {
+        let (mut n, mut nt) = (0u64, 0u64);
+        let mut judge = |r: Result<Outcome, Fail>, what: String, k: u64| {
+            n += 1;
+            match r {
+                Ok(o) => nt += u64::from(o.fill_px > 0 && o.stroke_px > 0),
+                Err(f) => ex.fail(i * 4096 + k, f.sig, f.detail, what),
+            }
+        };
+        if i < nc {
+            let dia = i as u32;
+            let c = Circle::new(Point::new(2, -3), dia);
+            for t in 0..=dia / 2 + 2 {
+                for (k, st) in styles(t).into_iter().enumerate() {
+                    judge(circle_case(c, st), format!("{:?} {}", c, gen::style_desc(&st)), t as u64 * 16 + k as u64);
+                }
+            }
+        } else if i < nc + nr {
+            let j = i - nc;
+            let r = Rectangle::new(Point::new(-2, 1), Size::new((j % 13) as u32, (j / 13) as u32));
+            for t in 0..=8 {
+                for (k, st) in styles(t).into_iter().enumerate() {
+                    judge(rect_case(r, st), format!("{:?} {}", r, gen::style_desc(&st)), t as u64 * 16 + k as u64);
+                }
+            }
+        } else {
+            let j = i - nc - nr;
+            let (w, h, rad) = ((j % 12) as u32 + 1, (j / 12 % 12) as u32 + 1, (j / 144) as u32);
+            let rr = RoundedRectangle::with_equal_corners(Rectangle::new(Point::new(1, 1), Size::new(w, h)), Size::new(rad, rad));
+            for t in 0..=5 {
+                for (k, st) in styles(t).into_iter().enumerate() {
+                    judge(rrect_case(rr, st), format!("{:?} {}", rr, gen::style_desc(&st)), t as u64 * 16 + k as u64);
+                }
+            }
+        }
+        ex.add(n, nt);
+        if i % 211 == 7 {
+            ex.sample(|| format!("item {}: all stroke widths x 3 alignments x 3 colour combinations", i));
+        }
+    });
 }
